@@ -172,7 +172,8 @@ def run(ctx):
     n = 6 if ctx.tier == "quick" else 250
     scratch = "/tmp/c36_%d_%d" % (os.getpid(), ctx.seed)
     rc, rows, err = ctx.jsonl([binp, "gen", "-seed", str(ctx.seed), "-n", str(n), shfmt, scratch], timeout=3000)
-    rc2, prow, err2 = ctx.jsonl([binp, "pinned", shfmt, scratch + "p"], timeout=600)
+    corpus = os.path.join(os.path.dirname(os.path.dirname(os.path.abspath(__file__))), "corpus", "c36", "regress.json")
+    rc2, prow, err2 = ctx.jsonl([binp, "pinned", "-in", corpus, shfmt, scratch + "p"], timeout=600)
     if rc != 0 or rc2 != 0 or not rows or not prow:
         ctx.broken.append(("harness-run", "c36 harness failed rc=%d/%d %s" % (rc, rc2, (err + err2)[-800:])))
         return
